@@ -37,10 +37,40 @@ theorem subKeys_keys_nodup (ks : List String) : ∀ d : D V, (keys d).Nodup → 
 
 end Pyg.DA
 
-namespace Pyg.DAHeap
-open Pyg.DA
+namespace Pyg.DA
 variable {V : Type}
 
+/-- what the heap theorems need of `Dict.__add__`: the result has the receiver's class' distinct keys -/
+class LawfulTreeAdd (V : Type) [TreeAdd V] : Prop where
+  keys_nodup : ∀ (a b r : List (String × V)), (a.map (·.1)).Nodup → TreeAdd.treeAdd a b = .ok r →
+    (r.map (·.1)).Nodup
+
+theorem addC_cls [TreeAdd V] (d r : D V) (o : List (String × V)) (h : addC d o = .ok r) : r.cls = d.cls := by
+  unfold addC at h
+  split at h
+  · cases hm : TreeAdd.treeAdd d.items o with
+    | error e => simp [hm, Except.map] at h
+    | ok kvs => simp only [hm, Except.map] at h; cases h; rfl
+  · cases h; rfl
+
+theorem addC_keys_nodup [TreeAdd V] [LawfulTreeAdd V] (d r : D V) (o : List (String × V))
+    (hd : (keys d).Nodup) (h : addC d o = .ok r) : (keys r).Nodup := by
+  unfold addC at h
+  split at h
+  · cases hm : TreeAdd.treeAdd d.items o with
+    | error e => simp [hm, Except.map] at h
+    | ok kvs =>
+      simp only [hm, Except.map] at h; cases h
+      exact LawfulTreeAdd.keys_nodup _ _ _ hd hm
+  · cases h; exact setAll_keys_nodup o _ hd
+
+end Pyg.DA
+
+namespace Pyg.DAHeap
+open Pyg.DA
+variable {V : Type} [TreeAdd V]
+
+omit [TreeAdd V] in
 theorem deref_ok {heap : Heap V} {h : Nat} {d : D V} (e : deref heap h = .ok d) : heap[h]? = some d := by
   unfold deref at e
   cases hh : heap[h]? with
@@ -76,7 +106,11 @@ theorem step_shape (heap heap' : Heap V) (op : Op V) (out : Out V)
   case add t o =>
     cases hd : deref heap t with
     | error e => simp [hd] at h
-    | ok d => simp only [hd] at h; cases h; exact Or.inl ⟨_, rfl, rfl, rfl⟩
+    | ok d =>
+      simp only [hd] at h
+      cases ha : addC d o with
+      | error e => simp [ha] at h
+      | ok r => simp only [ha] at h; cases h; exact Or.inl ⟨_, rfl, rfl, rfl⟩
   case addH t g =>
     cases hd : deref heap t with
     | error e => simp [hd] at h
@@ -84,7 +118,11 @@ theorem step_shape (heap heap' : Heap V) (op : Op V) (out : Out V)
       simp only [hd] at h
       cases hg : deref heap g with
       | error e => simp [hg] at h
-      | ok o => simp only [hg] at h; cases h; exact Or.inl ⟨_, rfl, rfl, rfl⟩
+      | ok o =>
+        simp only [hg] at h
+        cases ha : addC d o.items with
+        | error e => simp [ha] at h
+        | ok r => simp only [ha] at h; cases h; exact Or.inl ⟨_, rfl, rfl, rfl⟩
   case getL t ks =>
     cases hd : deref heap t with
     | error e => simp [hd] at h
@@ -104,7 +142,9 @@ theorem step_shape (heap heap' : Heap V) (op : Op V) (out : Out V)
   case setAttr t k v =>
     cases hd : deref heap t with
     | error e => simp [hd] at h
-    | ok d => simp only [hd] at h; cases h; exact Or.inr (Or.inl ⟨t, d, _, rfl, deref_ok hd, rfl, rfl, rfl⟩)
+    | ok d =>
+      simp only [hd] at h
+      split at h <;> cases h <;> exact Or.inr (Or.inl ⟨t, d, _, rfl, deref_ok hd, rfl, rfl, rfl⟩)
   case delItem t k =>
     cases hd : deref heap t with
     | error e => simp [hd] at h
@@ -146,9 +186,11 @@ theorem step_shape (heap heap' : Heap V) (op : Op V) (out : Out V)
     | error e => simp [hd] at h
     | ok d =>
       simp only [hd, asAttr] at h
-      cases hk : getKey d k with
-      | error e => cases e <;> simp [hk] at h
-      | ok v => simp only [hk] at h; cases h; exact Or.inr (Or.inr ⟨rfl, rfl⟩)
+      split at h
+      · cases h; exact Or.inr (Or.inr ⟨rfl, rfl⟩)
+      · cases hk : getKey d k with
+        | error e => cases e <;> simp [hk] at h
+        | ok v => simp only [hk] at h; cases h; exact Or.inr (Or.inr ⟨rfl, rfl⟩)
   case getT t ks =>
     cases hd : deref heap t with
     | error e => simp [hd] at h
@@ -162,6 +204,7 @@ theorem step_shape (heap heap' : Heap V) (op : Op V) (out : Out V)
     | error e => simp [hd] at h
     | ok d => simp only [hd] at h; cases h; exact Or.inr (Or.inr ⟨rfl, rfl⟩)
 
+omit [TreeAdd V] in
 theorem getList_keys_nodup (d r : D V) (ks : List String) (h : getList d ks = .ok r) :
     (keys r).Nodup := by
   simp only [getList, bind, Except.bind] at h
@@ -170,7 +213,7 @@ theorem getList_keys_nodup (d r : D V) (ks : List String) (h : getList d ks = .o
   · cases h; exact setAll_keys_nodup _ [] (by simp)
 
 /-- every step keeps the keys of every handle distinct -/
-theorem step_keys_nodup (heap heap' : Heap V) (op : Op V) (out : Out V)
+theorem step_keys_nodup [LawfulTreeAdd V] (heap heap' : Heap V) (op : Op V) (out : Out V)
     (inv : ∀ d ∈ heap, (keys d).Nodup) (h : step heap op = .ok (heap', out)) :
     ∀ d ∈ heap', (keys d).Nodup := by
   have hget : ∀ t d, deref heap t = .ok d → (keys d).Nodup := fun t d e =>
@@ -208,7 +251,11 @@ theorem step_keys_nodup (heap heap' : Heap V) (op : Op V) (out : Out V)
   case add t o =>
     cases hd : deref heap t with
     | error e => simp [hd] at h
-    | ok d => simp only [hd] at h; cases h; exact happ _ (setAll_keys_nodup o _ (hget t d hd))
+    | ok d =>
+      simp only [hd] at h
+      cases ha : addC d o with
+      | error e => simp [ha] at h
+      | ok r => simp only [ha] at h; cases h; exact happ _ (addC_keys_nodup d r o (hget t d hd) ha)
   case addH t g =>
     cases hd : deref heap t with
     | error e => simp [hd] at h
@@ -216,7 +263,11 @@ theorem step_keys_nodup (heap heap' : Heap V) (op : Op V) (out : Out V)
       simp only [hd] at h
       cases hg : deref heap g with
       | error e => simp [hg] at h
-      | ok o => simp only [hg] at h; cases h; exact happ _ (setAll_keys_nodup o.items _ (hget t d hd))
+      | ok o =>
+        simp only [hg] at h
+        cases ha : addC d o.items with
+        | error e => simp [ha] at h
+        | ok r => simp only [ha] at h; cases h; exact happ _ (addC_keys_nodup d r o.items (hget t d hd) ha)
   case getL t ks =>
     cases hd : deref heap t with
     | error e => simp [hd] at h
@@ -236,7 +287,11 @@ theorem step_keys_nodup (heap heap' : Heap V) (op : Op V) (out : Out V)
   case setAttr t k v =>
     cases hd : deref heap t with
     | error e => simp [hd] at h
-    | ok d => simp only [hd] at h; cases h; exact hset t _ (set_keys_nodup k v d.items (hget t d hd))
+    | ok d =>
+      simp only [hd] at h
+      split at h <;> cases h
+      · exact hset t _ (hget t d hd)
+      · exact hset t _ (set_keys_nodup k v d.items (hget t d hd))
   case delItem t k =>
     cases hd : deref heap t with
     | error e => simp [hd] at h
@@ -278,9 +333,11 @@ theorem step_keys_nodup (heap heap' : Heap V) (op : Op V) (out : Out V)
     | error e => simp [hd] at h
     | ok d =>
       simp only [hd, asAttr] at h
-      cases hk : getKey d k with
-      | error e => cases e <;> simp [hk] at h
-      | ok v => simp only [hk] at h; cases h; exact inv
+      split at h
+      · cases h; exact inv
+      · cases hk : getKey d k with
+        | error e => cases e <;> simp [hk] at h
+        | ok v => simp only [hk] at h; cases h; exact inv
   case getT t ks =>
     cases hd : deref heap t with
     | error e => simp [hd] at h
